@@ -39,6 +39,7 @@ pub fn small_spec(run_seed: u64) -> PipeSpec {
         presentations,
         sched: SchedSpec { policy: Policy::Sticky { p: 950 }, seed: s.schedule.next() },
         hard: None,
+        api: None,
     }
 }
 
